@@ -1,6 +1,7 @@
 import StepModel.GenCxx
 import StepModel.RegistryModel
 import StepModel.GenCxxRules
+import StepModel.AccessorKinds
 /-! Line-protocol driver for the exp2cxx / dictionary model (C02).  Input: one schema in the AST line protocol
 written by vlib/schema_gen_c02.py, terminated by `end`; output: the canonical dump in the format of
 harness/h_dict.cc, followed by the mangled names the accessor test needs.  Unknown lines answer `bad-op`. -/
@@ -150,6 +151,11 @@ def splitDot (s : String) : Option Ident × Ident :=
   | [a, b] => (some (toIdent a), toIdent b)
   | _ => (none, toIdent s)
 
+def accKindName : StepModel.Generated.AccKind → String
+  | .integer => "integer" | .real => "real" | .strBin => "strBin" | .logBool => "logBool" | .enumeration => "enumeration"
+  | .select => "select" | .entity => "entity" | .aggregate => "aggregate" | .inverseAggr => "inverseAggr"
+  | .inverseEntity => "inverseEntity"
+
 def dumpNames (s : Schema) : List String :=
   s.entities.flatMap (fun e =>
     s!"CLASS {e.name} {outStr (className (toIdent e.name))}" ::
@@ -158,7 +164,7 @@ def dumpNames (s : Schema) : List String :=
       let acc := outStr (accessorName sup (toIdent a.name))
       let dv := outStr (marker a.kind a.redecl.isSome) ++ outStr (attrCName sup (toIdent a.name))
       let dn := dictAttrName a
-      s!"ACCN {e.name} {dn} {acc} {dv}")) ++
+      s!"ACCN {e.name} {dn} {acc} {dv} {match accKindOf s a with | some k => accKindName k | none => "-"}")) ++
   s.types.filterMap (fun t => match t.body with
     | .enum _ => some s!"ENUMC {t.name} {outStr (enumClassName (toIdent t.name))}"
     | _ => some s!"TYPEC {t.name} {outStr (className (toIdent t.name))}")
